@@ -22,6 +22,12 @@ def run(ctx):
     cbc = fb.find("repl::check_bracket_closed")
     rwi = fb.find("repl::run_with_interpreter")
 
+    # ------------------------------------------------------------------ C18-last-value
+    ctx.rule("C18-last-value", "what a submission shows is the value of its last form (nothing for a definition): "
+                               "Interpreter::eval returns the last form's result, not an earlier one")
+    from . import c17
+    c17.last_value_rule(ctx, fb, "C18-last-value")
+
     # ------------------------------------------------------------------ C18-agreement
     ctx.rule("C18-agreement", "the completeness test agrees with the reader about which parentheses count")
     g = fb.call_graph("lib")
